@@ -948,12 +948,12 @@ def _normalize(r):
 def batch_ops():
     ops = []
 
-    def add(desc, on_batch, direct, catches=None, items=False, impl=None):
+    def add(desc, on_batch, direct, catches=None, items=False, impl=None, grid=False):
         # direct: the public operation on one container (the property's right-hand side);
         # impl:   the exact attribute call Batch._apply_attr makes (Frame keyword arguments included), when it differs
         wrap = (lambda fn: fn) if items else (lambda fn: (lambda l, c, d=fn: d(c)))
         ops.append({'desc': desc, 'batch': on_batch, 'direct': wrap(direct), 'impl': wrap(impl or direct), 'catches': catches,
-                    'frame_kwargs': impl is not None})
+                    'frame_kwargs': impl is not None, 'grid': grid})
     # selection
     add('iloc[0]', lambda b: b.iloc[0], lambda c: c.iloc[0])
     add('iloc[-1:]', lambda b: b.iloc[-1:], lambda c: c.iloc[-1:])
@@ -979,6 +979,13 @@ def batch_ops():
     add('max()', lambda b: b.max(), lambda c: c.max())
     add('min(axis=1)', lambda b: b.min(axis=1), lambda c: c.min(axis=1))
     add('prod()', lambda b: b.prod(), lambda c: c.prod())
+    add('iloc[1:]', lambda b: b.iloc[1:], lambda c: c.iloc[1:], grid=True)
+    # the full reduction grid (run on multi-block members only, see batch_cases): every reduction, both axes, both skipna
+    for red in ('sum', 'prod', 'mean', 'median', 'min', 'max', 'std', 'var', 'all', 'any'):
+        for ax in (0, 1):
+            for sk in (True, False):
+                add(f'{red}(axis={ax}, skipna={sk})', (lambda b, r=red, a=ax, k=sk: getattr(b, r)(axis=a, skipna=k)),
+                    (lambda c, r=red, a=ax, k=sk: getattr(c, r)(axis=a, skipna=k)), grid=True)
     # NA handling
     add('count()', lambda b: b.count(), lambda c: c.count(), impl=lambda c: c.count(skipna=True, axis=0))
     add('count(axis=1)', lambda b: b.count(axis=1), lambda c: c.count(axis=1), impl=lambda c: c.count(skipna=True, axis=1))
@@ -1026,7 +1033,28 @@ def batch_frame_sets():
         'single': [fr('only', ('r0', 'r1', 'r2'), [[10, 11], [12, 13], [14, 15]])],
         'int-labels': [fr(1, ('r0', 'r1'), [[10, 11], [12, 13]]), fr(2, ('r0', 'r1'), [[14, 15], [16, 17]])],
     }
+    # members whose TypeBlocks hold several blocks of UNEQUAL widths, 2-D blocks included: a reduction must not depend on it
+    def blk(name, data, widths, dtype):
+        cols = [np.array(c, dtype=dtype) for c in data]
+        layout = tuple((w, True if w > 1 else flag) for w, flag in widths)
+        return zoo.frame_from_columns(cols, layout, index=sf.Index([f'r{i}' for i in range(len(data[0]))]),
+                                      columns=sf.Index([f'c{j}' for j in range(len(data))]), name=name)
+    d4 = [[1.0, 2.0, 8.0], [0.5, 4.0, 1.0], [3.0, 1.5, 2.0], [6.0, 0.25, 4.0]]
+    d4n = [[1.0, nan, 8.0], [0.5, 4.0, nan], [nan, 1.5, 2.0], [6.0, 0.25, 4.0]]
+    d6 = [[1.0, 2.0], [3.0, 5.0], [8.0, 13.0], [21.0, 34.0], [55.0, 89.0], [144.0, 233.0]]
+    d6n = [[1.0, nan], [3.0, 5.0], [nan, 13.0], [21.0, nan], [55.0, 89.0], [nan, nan]]
+    i6 = [[1, 2], [3, 5], [8, 13], [21, 34], [55, 89], [144, 233]]
+    b4 = [[True, False, True], [True, True, False], [False, False, True], [True, True, True]]
+    sets['blocks-float'] = [blk('w13', d4, ((1, False), (3, True)), float), blk('w231', d6, ((2, True), (3, True), (1, False)), float),
+                            blk('w31', d4, ((3, True), (1, True)), float)]
+    sets['blocks-nan'] = [blk('n13', d4n, ((1, False), (3, True)), float), blk('n231', d6n, ((2, True), (3, True), (1, True)), float),
+                          blk('n22', d4n, ((2, True), (2, True)), float)]
+    sets['blocks-int'] = [blk('i231', i6, ((2, True), (3, True), (1, False)), np.int64), blk('i15', i6, ((1, True), (5, True)), np.int64),
+                          blk('b13', b4, ((1, False), (3, True)), bool)]
     out = {k: [(f.name, f) for f in v] for k, v in sets.items()}
+    # the same data one array per column: what every reduction must agree with
+    out['_flat'] = {f.name: blk(f.name, [f.iloc[:, j].values.tolist() for j in range(f.shape[1])], tuple((1, False) for _ in range(f.shape[1])), f.iloc[:, 0].values.dtype)
+                    for k in ('blocks-float', 'blocks-nan', 'blocks-int') for f in sets[k]}
     # Batches whose containers are NOT named after their labels (Bus.from_items / Batch(items) allow it)
     out['unnamed'] = [(lab, f.rename(None)) for lab, f in zip(('p', 'q', 'r'), sets['ragged-int'])]
     out['swapped-names'] = [(lab, f) for lab, f in zip(('f2', 'f0', 'f1'), sets['ragged-int'])]
@@ -1038,11 +1066,14 @@ def batch_cases(ctx):
     import static_frame as sf
     ops = batch_ops()
     sets = batch_frame_sets()
-    chains = [[i] for i in range(len(ops))]
-    pairs = [[i, j] for i in range(len(ops)) for j in range(len(ops))]
+    flat_twin = sets.pop('_flat')
+    block_sets = ['blocks-float', 'blocks-nan', 'blocks-int']
+    general = [i for i in range(len(ops)) if not ops[i]['grid']]
+    chains = [[i] for i in general]
+    pairs = [[i, j] for i in general for j in general]
     chains += ctx.rng.sample(pairs, ctx.n(40, 500))
     for _ in range(ctx.n(30, 350)):
-        chains.append([ctx.rng.randrange(len(ops)) for _ in range(3)])
+        chains.append([ctx.rng.choice(general) for _ in range(3)])
     # label-dependent functions, alone and after steps that change the containers' names, on every kind of Batch
     by_desc = {op['desc']: i for i, op in enumerate(ops)}
     label_ops = [by_desc[d] for d in ('apply_items(rename(label))', 'apply_items(name=(label, shape))', 'apply_items(label:size)',
@@ -1053,12 +1084,24 @@ def batch_cases(ctx):
         label_chains = label_chains[:len(label_ops)] + ctx.rng.sample(label_chains[len(label_ops):], 12)
     n_label = len(label_chains) * 2
     chains = [c for c in label_chains for _ in (0, 1)] + chains
+    # the reduction grid on multi-block members: alone, and behind a selection and an operator
+    forced = {}
+    grid_ops = [i for i in range(len(ops)) if ops[i]['grid'] and '(axis=' in ops[i]['desc']]
+    pre = [by_desc['iloc[1:]'], by_desc['* 2']]
+    for gi, g in enumerate(grid_ops):
+        forced[len(chains)] = block_sets if (ctx.tier != 'quick' or any(r in ops[g]['desc'] for r in ('mean', 'median', 'std', 'var'))) else [block_sets[gi % 3]]
+        chains.append([g])
+        if 'axis=1' in ops[g]['desc'] and (ctx.tier != 'quick' or any(r in ops[g]['desc'] for r in ('mean', 'median', 'std', 'var', 'sum'))):
+            forced[len(chains)] = block_sets if ctx.tier != 'quick' else [block_sets[gi % 3], block_sets[(gi + 1) % 3]]
+            chains.append(pre + [g])
     variants = [dict(), dict(max_workers=2, use_threads=True), dict(max_workers=3, use_threads=True, chunksize=2)]
-    set_names = sorted(sets)
+    set_names = sorted(k for k in sets if k not in block_sets)
     named_differently = ['unnamed', 'swapped-names', 'same-name']
     for ci, chain in enumerate(chains):
         sname = set_names[ci % len(set_names)] if len(chain) > 1 else None
-        if ci < n_label:
+        if ci in forced:
+            todo = forced[ci]
+        elif ci < n_label:
             todo = named_differently if ci % 2 else [named_differently[(ci // 2) % 3], 'ragged-int']
         else:
             todo = [sname] if sname else (set_names if ctx.tier != 'quick' else ['ragged-int', 'float-nan', 'aligned-int', 'unnamed'])
@@ -1131,13 +1174,26 @@ def batch_cases(ctx):
                       'batch-out:' + ('items' if 'items' in js else js['error']))
             for i in chain:
                 ctx.count('batch-op:' + ops[i]['desc'])
+            pf_layout = None
+            if ci in forced and len(chain) == 1:
+                # the reference itself must not depend on the block layout: same data, one array per column
+                def red(c):
+                    try:
+                        return raw_lit(ops[chain[0]]['direct'](None, c))
+                    except Exception as e:  # noqa
+                        return lit.err_class(e)
+                for lab, f in pairs_:
+                    a_, b2 = red(f), red(flat_twin[lab])
+                    if a_ != b2:
+                        pf_layout = f'{ops[chain[0]]["desc"]} on Frame {lab} (blocks {zoo.layout_str(zoo.layout_of(f))}) = {a_}, on the same data one array per column = {b2}'
+                ctx.count('batch:reduction-grid')
             yield Case('api:batch.items', desc,
                        m=f'res_eqb items_eqb (collect ({"M_batch_pool" if kw else "M_batch"} {st_m} {items})) {obs}',
                        s=f'bs_eqb items_eqb (collect (S_batch {st} {items})) {obs}',
-                       tags=btags, nontrivial=len(frames) > 1,
+                       py_fail=pf_layout, tags=btags, nontrivial=len(frames) > 1,
                        key=f'batch{sn}{chain}{sorted(kw.items())}')
             # ---- export
-            if ci % 2 == 0 or len(chain) == 1:
+            if (ci % 2 == 0 or len(chain) == 1) and (ci not in forced or ci % 4 == 0):
                 for axis in (0, 1):
                     try:
                         fr_ = run().to_frame(axis=axis)
